@@ -135,7 +135,7 @@ func runNAVCOMMIT(c *Ctx) {
 	for fn := range reach {
 		fns = append(fns, fn)
 	}
-	sort.Slice(fns, func(i, j int) bool { return fns[i].Pos() < fns[j].Pos() })
+	sort.Slice(fns, func(i, j int) bool { return ir.PosLess(fns[i].Pos(), fns[j].Pos()) })
 	for _, fn := range fns {
 		if ir.ErrorResultIndex(fn.Signature) < 0 {
 			continue
@@ -153,7 +153,7 @@ func runNAVCOMMIT(c *Ctx) {
 		if len(effs) == 0 {
 			continue
 		}
-		sort.SliceStable(effs, func(i, j int) bool { return effs[i].Instr.Pos() < effs[j].Instr.Pos() })
+		sort.SliceStable(effs, func(i, j int) bool { return ir.PosLess(effs[i].Instr.Pos(), effs[j].Instr.Pos()) })
 		type hit struct {
 			eff  Effect
 			call ssa.CallInstruction
